@@ -249,14 +249,12 @@ theorem execPrim_safe (env : Env) (inp : List Val) (dst : Option String) (p : Pr
     | (simp only [Except.ok.injEq] at h; subst h
        refine ⟨?_, ?_, ?_, ?_⟩
        · intro e he
-         simp only [List.mem_singleton, List.not_mem_nil, List.mem_cons, or_false] at he
-         first
-         | exact he.elim
-         | (subst he; simp only [QuietEv]
-            first
-            | exact asLoc_safe _ _ (hvs _ List.mem_cons_self) ‹asLoc _ = Except.ok _›
-            | rfl
-            | simpa [okPrim] using hp)
+         simp only [List.mem_singleton, List.not_mem_nil, List.mem_cons, or_false] at he <;>
+           (subst he; simp only [QuietEv]
+            try (first
+              | exact asLoc_safe _ _ (hvs _ List.mem_cons_self) ‹asLoc _ = Except.ok _›
+              | rfl
+              | simpa [okPrim] using hp))
        · first
          | exact hs
          | exact hs.setDst _ _ (by simpa [RetSafe] using hr _ List.mem_cons_self)
